@@ -38,7 +38,8 @@ ASSUME Ops \subseteq AllOps /\ Pres \subseteq {"", "not", "neg"} /\ "" \in Pres
 I(n)   == [k |-> "int",  i |-> n]
 B(b)   == [k |-> "bool", i |-> IF b THEN 1 ELSE 0]
 Err    == [k |-> "err",  i |-> 0]
-IsErr(v)  == v.k = "err"
+Gar    == [k |-> "gar",  i |-> 0]      \* algorithm level only: asp divided by zero with // (float floor of Inf: an arbitrary integer)
+IsErr(v)  == v.k \in {"err", "gar"}
 Truthy(v) == v.i # 0
 
 \* floor division and modulo for either sign (TLC's % wants a positive divisor)
@@ -127,37 +128,38 @@ Prec(op) == CASE op = "neg" -> 4
               [] op = "or"  -> 0 - 3
               [] OTHER -> 0
 
+Bad(a, b) == IF a.k = "err" \/ b.k = "err" THEN Err ELSE Gar
 \* one operator applied to two evaluated objects (objects.go pyInt.Operator; pyBool is not operatable)
 ABin(op, a, b) ==
-  IF IsErr(a) \/ IsErr(b) THEN Err
+  IF IsErr(a) \/ IsErr(b) THEN Bad(a, b)
   ELSE IF op = "==" THEN B(a = b)                       \* reflect.DeepEqual: pyBool(true) # pyInt(1)
   ELSE IF op = "!=" THEN B(a # b)
   ELSE IF a.k # "int" \/ b.k # "int" THEN Err           \* "operator not implemented on type bool" / "Cannot operate on int and bool"
   ELSE CASE op = "+"  -> I(a.i + b.i)
          [] op = "-"  -> I(a.i - b.i)
          [] op = "*"  -> I(a.i * b.i)
-         [] op = "//" -> IF b.i = 0 THEN Err ELSE I(FloorDiv(a.i, b.i))   \* float floor; /0 is garbage, outside the property anyway
+         [] op = "//" -> IF b.i = 0 THEN Gar ELSE I(FloorDiv(a.i, b.i))   \* int(math.Floor(float/0)): no error, an arbitrary value
          [] op = "%"  -> IF b.i = 0 THEN Err ELSE I(GoMod(a.i, b.i))
          [] op \in CmpOps -> B(Cmp(op, a.i, b.i))
-AUn(op, a) == IF IsErr(a) THEN Err
+AUn(op, a) == IF IsErr(a) THEN a
               ELSE IF op = "not" THEN B(~Truthy(a))
               ELSE IF a.k = "int" THEN I(0 - a.i) ELSE Err  \* "Unary - can only be applied to an integer"
 
 RECURSIVE AInterpOps(_, _)
 AInterpOp(obj, o) ==
-  IF IsErr(obj) THEN Err
+  IF IsErr(obj) THEN obj
   ELSE IF o.un THEN AUn(o.op, obj)
   ELSE IF o.op \in {"and", "or"} THEN IF Truthy(obj) = (o.op = "and") THEN I(o.v) ELSE obj
   ELSE ABin(o.op, obj, I(o.v))
 AInterpOps(obj, ops) ==
-  IF IsErr(obj) THEN Err
+  IF IsErr(obj) THEN obj
   ELSE IF Len(ops) = 1 THEN AInterpOp(obj, ops[1])
   ELSE IF Prec(ops[1].op) >= Prec(ops[2].op) THEN AInterpOps(AInterpOp(obj, ops[1]), Tail(ops))
   ELSE IF ops[1].op \in {"and", "or"} /\ Truthy(obj) # (ops[1].op = "and") THEN obj
   ELSE IF ops[1].un THEN AInterpOp(AInterpOps(obj, Tail(ops)), ops[1])
   ELSE LET nobj == AInterpOps(I(ops[1].v), Tail(ops)) IN      \* ALL remaining operators go to the right operand
        IF ops[1].op \in {"and", "or"}
-       THEN IF IsErr(nobj) THEN Err ELSE IF Truthy(obj) = (ops[1].op = "and") THEN nobj ELSE obj
+       THEN IF IsErr(nobj) THEN nobj ELSE IF Truthy(obj) = (ops[1].op = "and") THEN nobj ELSE obj
        ELSE ABin(ops[1].op, obj, nobj)
 AEval(s) == IF AOps(s) = <<>> THEN I(s[1].v) ELSE AInterpOps(I(s[1].v), AOps(s))
 
@@ -217,7 +219,7 @@ PresNone  == {""}
 PresNot   == {"", "not"}
 PresAll   == {"", "not", "neg"}
 
-Show(v) == IF v.k = "err" THEN [k |-> "err"] ELSE IF v.k = "bool" THEN [k |-> "bool", v |-> (v.i = 1)] ELSE [k |-> "int", v |-> v.i]
+Show(v) == IF v.k \in {"err", "gar"} THEN [k |-> v.k] ELSE IF v.k = "bool" THEN [k |-> "bool", v |-> (v.i = 1)] ELSE [k |-> "int", v |-> v.i]
 \* one pass per state: the relation between the levels, then the case
 CheckAndEmit == LET py == PyEval(e)
                     al == AEval(e) IN
